@@ -115,6 +115,12 @@ namespace plan
     }
     else if (name == "xorn")
       op.a = {static_cast<long>(r.below(4)), static_cast<long>(r.below(1000))};
+    else if (name == "r_logic")
+    {
+      op.a = {static_cast<long>(r.below(4))};
+      g_rel(r, op, K);
+      g_rel(r, op, K);
+    }
     else if (name == "pin")
       op.a = {static_cast<long>(r.below(6)), static_cast<long>(r.below(5)), static_cast<long>(r.below(3)), static_cast<long>(r.below(32))};
     else if (name == "spred")
@@ -313,7 +319,7 @@ namespace plan
     }
     if (causal || sv)
       for (int i = 0, n = static_cast<int>(sw.range(1, 6)); i < n; ++i)
-        ops.push_back(g_op(g, g.chance(1, 2) ? "r_rel" : "r_goal"));
+        ops.push_back(g_op(g, g.chance(1, 6) ? "r_logic" : (g.chance(1, 2) ? "r_rel" : "r_goal")));
     W w;
     const bool timeline_focus = prop == "C19" || prop == "C04" || prop == "C05" || prop == "C06";
     w.add("real", 3), w.add("bool", 2), w.add("rel", timeline_focus ? 4 : 14);
